@@ -470,6 +470,83 @@ func c08Families(tier string) []explore.Family {
 		}})
 	}
 
+	// scaled: long arrays (index at the boundaries), deep property chains, long pipelines
+	bigLens := []int{6, 7, 8, 9, 15, 16, 17, 31, 32, 33, 63, 64, 65, 100, 127, 128, 129, 255, 256, 257, 1000, 4097}
+	fams = append(fams, explore.Family{Name: "scaled", Count: int64(len(bigLens)), Run: func(i int64, r *explore.Rec) {
+		n := bigLens[i]
+		arr := make([]any, n)
+		ints := make([]int, n)
+		for j := range arr {
+			arr[j], ints[j] = 1000+j, 1000+j
+		}
+		// nested maps n levels deep: m.k.k...k.v
+		var deep any = map[string]any{"v": "bottom"}
+		for j := 0; j < n && j < 300; j++ {
+			deep = map[string]any{"k": deep}
+		}
+		depth := n
+		if depth > 300 {
+			depth = 300
+		}
+		chain := "deep" + strings.Repeat(".k", depth) + ".v"
+		brack := "deep" + strings.Repeat(`["k"]`, depth) + `["v"]`
+		elem := func(idx int) string {
+			if idx < 0 {
+				idx += n
+			}
+			if idx >= 0 && idx < n {
+				return strconv.Itoa(1000 + idx)
+			}
+			return ""
+		}
+		for _, a := range []any{arr, ints} {
+			b := map[string]any{"a": a, "deep": deep}
+			for _, idx := range []int{0, 1, n / 2, n - 2, n - 1, n, n + 1, -1, -2, -n + 1, -n, -n - 1} {
+				r.Eval()
+				r.Transition()
+				b["k"] = idx
+				o := Render(c08.eng, fmt.Sprintf("{{ a[%d] }}|{{ a[k] }}", idx), b)
+				if want := elem(idx) + "|" + elem(idx); o.Panic != nil || o.Err != nil || o.Out != want {
+					r.Violation("wrong-value:scaled-index", map[string]any{"array_length": n, "index": idx}, want, o.String())
+				}
+			}
+			r.Eval()
+			o := Render(c08.eng, "{{ a.first }}|{{ a.last }}|{{ a.size }}|{{ a | size }}|{{ a | first }}|{{ a | last }}", b)
+			if want := fmt.Sprintf("1000|%d|%d|%d|1000|%d", 999+n, n, n, 999+n); o.Out != want || o.Err != nil {
+				r.Violation("wrong-value:scaled-first-last-size", map[string]any{"array_length": n}, want, o.String())
+			}
+		}
+		r.Eval()
+		o := Render(c08.eng, "{{ "+chain+" }}|{{ "+brack+" }}|{{ "+chain+".x.y }}", map[string]any{"deep": deep})
+		if o.Panic != nil || o.Err != nil || o.Out != "bottom|bottom|" {
+			r.Violation("wrong-value:scaled-property-chain", map[string]any{"depth": depth}, "bottom|bottom|", trunc80(o.String()))
+		}
+		// a pipeline of n steps equals its decomposition
+		steps := n
+		if steps > 130 {
+			steps = 130
+		}
+		var pipe, dec strings.Builder
+		pipe.WriteString("{{ 0")
+		prev := "0"
+		for j := 0; j < steps; j++ {
+			st := []string{" | plus: 1", " | append: '' | plus: 0", " | times: 1"}[j%3]
+			pipe.WriteString(st)
+			fmt.Fprintf(&dec, "{%% assign t%d = %s%s %%}", j, prev, st)
+			prev = fmt.Sprintf("t%d", j)
+		}
+		pipe.WriteString(" }}")
+		r.Eval()
+		r.Eval()
+		o1, o2 := Render(c08.eng, pipe.String(), map[string]any{}), Render(c08.eng, dec.String()+"{{ "+prev+" }}", map[string]any{})
+		if o1.Panic != nil || o1.Err != nil || o1.Out != o2.Out || o1.Out != strconv.Itoa((steps+2)/3) {
+			r.Violation("pipeline-law:scaled", map[string]any{"steps": steps}, o2.String(), o1.String())
+		}
+		r.Trace()
+		r.Class("scaled")
+		r.State("scaled")
+	}})
+
 	// (E2) pipeline law: x | f | g  ==  assign t1 = x | f ; assign t2 = t1 | g ; print t2
 	// arguments include parenthesised pipelines (the grammar allows a pipeline inside parentheses anywhere an
 	// expression may stand)
@@ -717,7 +794,7 @@ func init() {
 		Level: "model_checking",
 		Rule: "lookup grid: arrays of length 0..5 in 4 representations x index -7..7 (literal, variable, nested in array and map) x 6 non-integer indices x first/last/size; 7 maps x 12 access forms; every scalar x 9 access forms; " +
 			"all lookup trees of depth <=2 (quick) / <=3 over 16 atoms, 8 property names and index expressions, in default and strict-variables mode, against reference lookup rules; " +
-			"pipeline law over 14 receivers x all chains of 2 (quick) / 3 filter steps from ~100 steps; argument evaluation in current bindings; unknown filter and one-argument-too-many for every standard filter; " +
+			"scaled: arrays of 6..4097 elements indexed at the boundaries, property chains up to 300 deep, pipelines of up to 130 steps; pipeline law over 17 receivers x all chains of 2 (quick) / 3 filter steps from ~100 steps; argument evaluation in current bindings; unknown filter and one-argument-too-many for every standard filter; " +
 			"whitespace from {'', ' ', newline, tab+space} in every gap of 7 tag/object forms (4^k exhaustive), dot vs bracket and quote style; " +
 			"state = construct/depth; transition = one expression rendered; trace = expression validated against the reference",
 		Assumptions: []string{
